@@ -37,6 +37,7 @@ TTrace ==
        /\ e.dV >= 9
        \* OnlyWhereExists: the reported range (table ends -/+ the 2 dT margin) stops before the spinodal
        /\ e.nOutside = 0
+       /\ e.nRawOutside = 0                          \* nor does a raw entry inside the margin lie past a spinodal
        /\ e.rangeLo >= e.sLo - TOLT /\ e.rangeHi <= e.sHi + TOLT
        \* FlagIffTruncated and CoversRequest (threshold cases exempt, as the quantifier allows)
        /\ truncLo => e.flagLo
